@@ -4,7 +4,7 @@
 //! boundary, mutations, arbitrary bytes, extreme numerals, truncations (C01, C05, C06),
 //! single-token corruptions with known position (C08), faults (C04), line sources (C09).
 use crate::common::*;
-use crate::eng_btor2::{write_lines, Case, OConst, OLine, OVariant};
+use crate::eng_btor2::{join_obs, write_lines, Case, OConst, OLine, OVariant};
 use flussab_btor2::btor2::*;
 
 pub const UNARY_OPS: &[UnaryOp] =
@@ -222,9 +222,7 @@ pub fn gen_doc(rng: &mut Rng) -> Vec<OLine> {
 }
 
 pub fn expected(doc: &[OLine]) -> String {
-    let mut v: Vec<String> = doc.iter().map(|l| l.obs()).collect();
-    v.push("END".into());
-    v.join("|")
+    join_obs(doc.iter().map(|l| l.obs()), "END")
 }
 
 /// Text with token spans: (line, column, length, is a number) of every space-separated token
@@ -421,15 +419,19 @@ fn offset_of(bytes: &[u8], l: usize, c: usize) -> usize {
 }
 
 /// One case line.  `opt` selects the family:
-/// rt | layout | kinds | mutate | arbitrary | kw | corrupt | fault | ls | rtbad | valid
-pub fn gen_case(rng: &mut Rng, opt: &str, _thorough: bool) -> String {
+/// rt | layout | kinds | mutate | arbitrary | kw | corrupt | fault | ls | rtbad | valid | scale
+pub fn gen_case(rng: &mut Rng, opt: &str, thorough: bool) -> String {
+    if opt == "scale" || opt.starts_with("scale:") {
+        // `scale` = every dimension; `scale:<dim>+<dim>…` = only the named ones (see `DIMS`)
+        return gen_scale(rng, thorough, opt.strip_prefix("scale").unwrap().trim_start_matches(':'));
+    }
     let family = if opt.is_empty() || opt == "mix" {
         *rng.pick(&["rt", "layout", "layout", "kinds", "mutate", "mutate", "arbitrary", "kw", "kw", "corrupt", "fault", "ls", "rtbad", "valid"])
     } else {
         let fams: Vec<&str> = opt.split('+').collect();
         *rng.pick(&fams)
     };
-    let mut case = Case { k: None, ls: false, data: vec![], expect: None, tok: None, valid: None };
+    let mut case = Case { k: None, ls: false, data: vec![], expect: None, tok: None, valid: None, exact: None };
     match family {
         "valid" => {
             // the `TryFrom<&str>` validators of the three constant types on an arbitrary string
@@ -541,7 +543,7 @@ pub fn fault_sweep(rng: &mut Rng) -> Vec<String> {
     let doc = gen_doc(rng);
     let r = render(rng, &doc, false);
     (0..=r.bytes.len())
-        .map(|k| Case { k: Some(k), ls: false, data: r.bytes.clone(), expect: None, tok: None, valid: None }.line())
+        .map(|k| Case { k: Some(k), ls: false, data: r.bytes.clone(), expect: None, tok: None, valid: None, exact: None }.line())
         .collect()
 }
 
@@ -566,8 +568,978 @@ pub fn validators_exhaustive() -> Vec<String> {
     let mut out = vec![];
     for s in &strings {
         for t in ['b', 'd', 'h'] {
-            out.push(Case { k: None, ls: false, data: vec![], expect: None, tok: None, valid: Some((t, s.clone())) }.line());
+            out.push(Case { k: None, ls: false, data: vec![], expect: None, tok: None, valid: Some((t, s.clone())), exact: None }.line());
         }
     }
     out
+}
+
+// ------------------------------------------------------------------ scale family (`--opt scale`)
+//
+// Every size-like dimension of a BTOR2 input taken to 2^20 and beyond: length of one whitespace
+// run (blank lines, indentation, mixtures), conditions of one `justice` line, bytes of a symbol /
+// comment / constant / numeral, number of lines, stream position of an error or an I/O fault,
+// bytes pulled through a one-line-per-read source.  Sizes come from `common::scale_sizes` (around
+// powers of two and around every integer constant of the current source), plus exact multiples
+// of `2^k+1` / `c+1` and random sizes in between.  Documents are valid for the most part (expected
+// observation `x=`), with a stream of invalid ones whose error position is known exactly (`e=`).
+
+use std::sync::atomic::{AtomicUsize, Ordering};
+
+/// Longest whitespace run that still goes through the Lean model: `Btor2.skipWsLoop` costs
+/// O(run length²) (16 Ki = 0.6 s, 32 Ki = 2.2 s, 64 Ki = 9 s); longer runs are `big=1` cases
+/// (implementation-side oracles only, incl. the exact error location).  The quick tier uses a
+/// quarter of it (8 Ki = 0.15 s per case).  Raise to `1 << 21` once the model loop is linear.
+pub const MODEL_WS_CAP: usize = (1 << 15) + 64;
+/// Most lines of one document that still go through the model (the per-line fuel computation
+/// `rest.length` makes it O(lines × bytes): 8192 short lines = 1 s, 16384 = 4 s).
+pub const MODEL_LINES_CAP: usize = (1 << 13) + 64;
+
+fn ws_cap(thorough: bool) -> usize {
+    if thorough { MODEL_WS_CAP } else { MODEL_WS_CAP / 4 }
+}
+
+fn lines_cap(thorough: bool) -> usize {
+    if thorough { MODEL_LINES_CAP } else { MODEL_LINES_CAP / 4 }
+}
+
+/// Upper bound (as a power of two) of the generic sizes of the dimensions that run through the
+/// model: the thorough tier (`hi_k` = 21) uses the whole range.
+fn gen_k(hi_k: u32) -> u32 {
+    if hi_k > 20 { hi_k } else { 16 }
+}
+
+static SCALE_IDX: AtomicUsize = AtomicUsize::new(0);
+static DIM_COUNT: [AtomicUsize; 16] = [const { AtomicUsize::new(0) }; 16];
+
+/// One cycle of the scale family; whitespace runs get 6 of 16 slots.
+const DIMS: &[&str] = &[
+    "ws_nl", "just_rt", "ws_mix", "cmt", "ws_valid", "sym", "num", "const", "ws_mix", "just_err", "lines", "fault", "ws_nl",
+    "ls", "valid", "ws_valid",
+];
+
+/// `count` lines that differ in one decimal numeral (an `n` segment of the data field).
+#[derive(Clone)]
+struct Counted {
+    count: usize,
+    start: u64,
+    step: u64,
+    kind: usize,
+}
+
+const COUNTED_KINDS: usize = 6;
+
+impl Counted {
+    fn pre_suf(&self) -> (&'static [u8], &'static [u8]) {
+        match self.kind {
+            0 => (b"", b" input 1\n"),
+            1 => (b"9 not 1 ", b"\n"),
+            2 => (b";", b"\n"),
+            3 => (b"", b" sort bitvec 8 s ;c\n"),
+            4 => (b"3 constd 1 ", b"\n"),
+            _ => (b"5 uext 1 2 ", b"\n"),
+        }
+    }
+    fn line(&self, i: usize) -> OLine {
+        let v = self.start + i as u64 * self.step;
+        let node = |id, variant, symbol: Option<&[u8]>, comment: Option<&[u8]>| OLine::Node {
+            id,
+            variant,
+            symbol: symbol.map(|s| s.to_vec()),
+            comment: comment.map(|s| s.to_vec()),
+        };
+        match self.kind {
+            0 => node(v, OVariant::Input(1), None, None),
+            1 => node(9, OVariant::Unary(1, UnaryOp::Not, v), None, None),
+            2 => OLine::Comment(v.to_string().into_bytes()),
+            3 => node(v, OVariant::SortBitVec(8), Some(b"s"), Some(b"c")),
+            4 => node(3, OVariant::Const(1, OConst::Decimal(v.to_string())), None, None),
+            _ => node(5, OVariant::Unary(1, UnaryOp::Uext(v), 2), None, None),
+        }
+    }
+}
+
+enum XItem {
+    Line(OLine),
+    Counted(Counted),
+    Repeat(usize, Vec<OLine>),
+}
+
+/// A document under construction: the segments of its data field, the same bytes expanded, and
+/// the lines it was written from.
+struct Doc {
+    segs: Vec<String>,
+    bytes: Vec<u8>,
+    items: Vec<XItem>,
+    /// every byte so far is what `write_into` emits for `items` (no layout, no damage)
+    plain: bool,
+}
+
+impl Doc {
+    fn new() -> Doc {
+        Doc { segs: vec![], bytes: vec![], items: vec![], plain: true }
+    }
+    fn seg(&mut self, s: String) {
+        let b = data_field(&s);
+        if b.is_empty() {
+            return;
+        }
+        self.bytes.extend_from_slice(&b);
+        let is_lit = |t: &str| !t.starts_with(|c| matches!(c, 'g' | 'r' | 'n' | '-'));
+        if is_lit(&s) {
+            if let Some(last) = self.segs.last_mut() {
+                if is_lit(last) {
+                    last.push_str(&s);
+                    return;
+                }
+            }
+        }
+        self.segs.push(s);
+    }
+    fn lit(&mut self, b: &[u8]) {
+        if !b.is_empty() {
+            self.seg(hex(b));
+        }
+    }
+    fn rep(&mut self, count: usize, pat: &[u8]) {
+        if count == 0 || pat.is_empty() {
+            return;
+        }
+        if count * pat.len() <= 16 {
+            let v: Vec<u8> = pat.iter().cycle().take(count * pat.len()).copied().collect();
+            self.lit(&v);
+        } else {
+            self.seg(format!("r{}.{}", count, hex(pat)));
+        }
+    }
+    /// exactly `n` bytes of the repeated pattern
+    fn fill(&mut self, n: usize, pat: &[u8]) {
+        self.rep(n / pat.len(), pat);
+        self.lit(&pat[..n % pat.len()]);
+    }
+    fn num(&mut self, count: usize, start: u64, step: u64, pre: &[u8], suf: &[u8]) {
+        if count > 0 {
+            assert!(step == 0 || (count as u64 - 1) <= (u64::MAX - start) / step);
+            self.seg(format!("n{}.{}.{}.{}.{}", count, start, step, hex(pre), hex(suf)));
+        }
+    }
+    /// lines as `write_into` emits them
+    fn text(&mut self, ls: &[OLine]) {
+        let t = write_lines(ls).expect("generated line is constructible");
+        self.lit(&t);
+        self.items.extend(ls.iter().cloned().map(XItem::Line));
+    }
+    fn counted(&mut self, c: Counted) {
+        let (pre, suf) = c.pre_suf();
+        self.num(c.count, c.start, c.step, pre, suf);
+        self.items.push(XItem::Counted(c));
+    }
+    fn repeat(&mut self, count: usize, block: Vec<OLine>) {
+        let t = write_lines(&block).expect("generated line is constructible");
+        self.rep(count, &t);
+        self.items.push(XItem::Repeat(count, block));
+    }
+    /// layout / damage: bytes that belong to no written line
+    fn raw(&mut self) -> &mut Doc {
+        self.plain = false;
+        self
+    }
+    fn off(&self) -> usize {
+        self.bytes.len()
+    }
+    fn field(&self) -> String {
+        if self.segs.is_empty() { "-".into() } else { self.segs.join("+") }
+    }
+    /// 1-based line and column of the byte at offset `off` (which may be the end of the input)
+    fn line_col(&self, off: usize) -> (usize, usize) {
+        let before = &self.bytes[..off];
+        let line = 1 + before.iter().filter(|b| **b == b'\n').count();
+        let start = before.iter().rposition(|b| *b == b'\n').map(|p| p + 1).unwrap_or(0);
+        (line, off - start + 1)
+    }
+    fn n_lines(&self) -> usize {
+        self.items
+            .iter()
+            .map(|i| match i {
+                XItem::Line(_) => 1,
+                XItem::Counted(c) => c.count,
+                XItem::Repeat(n, b) => n * b.len(),
+            })
+            .sum()
+    }
+    fn obs_items(&self) -> impl Iterator<Item = String> + '_ {
+        self.items.iter().flat_map(|i| -> Box<dyn Iterator<Item = String> + '_> {
+            match i {
+                XItem::Line(l) => Box::new(std::iter::once(l.obs())),
+                XItem::Counted(c) => Box::new((0..c.count).map(move |k| c.line(k).obs())),
+                XItem::Repeat(n, b) => Box::new((0..*n).flat_map(move |_| b.iter().map(|l| l.obs()))),
+            }
+        })
+    }
+    /// the observation of a complete parse of the lines the document was written from
+    fn expected(&self) -> String {
+        join_obs(self.obs_items(), "END")
+    }
+    /// C03 as stated: the bytes of a plain document are exactly what `write_into` emits for its
+    /// lines (checked here for documents that are small enough to materialise)
+    fn check_plain(&self) {
+        if self.plain && self.n_lines() <= 4096 {
+            let mut ls: Vec<OLine> = vec![];
+            for i in &self.items {
+                match i {
+                    XItem::Line(l) => ls.push(l.clone()),
+                    XItem::Counted(c) => ls.extend((0..c.count).map(|k| c.line(k))),
+                    XItem::Repeat(n, b) => (0..*n).for_each(|_| ls.extend(b.iter().cloned())),
+                }
+            }
+            assert!(write_lines(&ls).as_deref() == Some(&self.bytes[..]), "scale document differs from what write_into emits");
+        }
+    }
+    fn case(&self, k: Option<usize>, ls: bool, x: Option<String>, e: Option<(usize, usize)>, big: bool) -> String {
+        format!(
+            "btor2 k={} ls={} d={}{}{}{}",
+            match k { Some(k) => k.to_string(), None => "-".into() },
+            ls as u8,
+            self.field(),
+            match x { Some(x) => format!(" x={}", x), None => String::new() },
+            match e { Some((l, c)) => format!(" e={}:{}", l, c), None => String::new() },
+            if big { " big=1" } else { "" },
+        )
+    }
+}
+
+/// Sizes of one dimension: those derived from source constants, those around powers of two.
+struct Pool {
+    consts: Vec<usize>,
+    pows: Vec<usize>,
+    bases: Vec<usize>,
+    lo_k: u32,
+    hi_k: u32,
+    /// generic sizes stay below `2^gen_k + 64` (the quick tier affords one case beyond `2^hi_k`
+    /// per dimension and keeps the rest at or below 64 Ki, except where only the implementation
+    /// runs)
+    gen_k: u32,
+}
+
+fn pool(lo_k: u32, hi_k: u32, gen_k: u32) -> Pool {
+    let all = scale_sizes(lo_k, hi_k);
+    let (lo, max) = (1usize << lo_k, (1usize << hi_k) + 64);
+    let cs: Vec<usize> = source_consts().into_iter().filter(|c| *c >= lo as u64 && *c <= 1 << hi_k).map(|c| c as usize).collect();
+    // sizes derived from source constants (the same ones `scale_sizes` lists), most telling
+    // variant first, each variant for every constant before the next variant
+    let variants: [fn(usize) -> usize; 10] =
+        [|c| c + 1, |c| c, |c| c - 1, |c| 2 * c + 1, |c| c + 8, |c| 3 * (c + 1), |c| 2 * c, |c| c + 9, |c| 5 * (c + 1), |c| 4 * c + 4];
+    let mut consts: Vec<usize> = vec![];
+    for v in variants {
+        for c in &cs {
+            let size = v(*c);
+            if size >= lo && size <= max && !consts.contains(&size) && all.contains(&size) {
+                consts.push(size);
+            }
+        }
+    }
+    let mut pows: Vec<usize> = vec![];
+    for k in lo_k..=hi_k {
+        let p = 1usize << k;
+        pows.extend([p - 1, p, p + 1, p + 3, p + 8, p + 9]);
+    }
+    // periods of a flush that happens every `2^k + 1` / `c + 1` bytes
+    let mut bases: Vec<usize> = (lo_k..hi_k.min(17)).map(|k| (1usize << k) + 1).collect();
+    bases.extend(cs.iter().map(|c| c + 1));
+    bases.sort();
+    bases.dedup();
+    Pool { consts, pows, bases, lo_k, hi_k, gen_k: gen_k.max(lo_k + 1) }
+}
+
+impl Pool {
+    /// The `j`-th size of a dimension: first beyond `2^hi_k`, then alternately the sizes derived
+    /// from source constants (in order, until exhausted) and generic ones.
+    fn pick(&self, rng: &mut Rng, j: usize) -> usize {
+        if j == 0 || (self.gen_k == self.hi_k && j % 16 == 0) {
+            return (1usize << self.hi_k) + *rng.pick(&[1usize, 3, 8, 9]);
+        }
+        if j % 2 == 1 && j / 2 < self.consts.len() {
+            return self.consts[j / 2];
+        }
+        self.generic(rng)
+    }
+    fn generic(&self, rng: &mut Rng) -> usize {
+        let max = (1usize << self.gen_k) + 64;
+        let around = |rng: &mut Rng, p: usize| p - 1 + *rng.pick(&[0usize, 1, 2, 4, 9, 10]);
+        match rng.below(20) {
+            0..=8 => {
+                let below: Vec<usize> = self.pows.iter().copied().filter(|p| *p <= max).collect();
+                *rng.pick(&below)
+            }
+            9..=12 => {
+                let b = *rng.pick(&self.bases);
+                let m = rng.range(1, 8) as usize;
+                if m * b <= max { m * b } else { b }
+            }
+            13..=15 => {
+                let k = rng.range(self.lo_k as u64, self.gen_k as u64 - 1);
+                (1usize << k) + rng.below(1 << k) as usize
+            }
+            _ => {
+                let k = rng.range(self.gen_k as u64 - 1, self.gen_k as u64);
+                around(rng, 1usize << k)
+            }
+        }
+    }
+}
+
+fn small_lines(rng: &mut Rng, n: u64) -> Vec<OLine> {
+    let all = all_kinds();
+    (0..n).map(|_| if rng.chance(1, 2) { rng.pick(&all).clone() } else { rand_line(rng) }).collect()
+}
+
+/// Lines that are not well-formed, with the 0-based offset of the byte at which the line stops
+/// being a prefix of a well-formed line (for an over-long / zero-led numeral: its first digit,
+/// which is where the parser reports it).  An offset equal to the length is the end of the line.
+const ERR_LINES: &[(&[u8], usize)] = &[
+    (b"?", 0),
+    (b"0 sort bitvec 1", 0),
+    (b"x1 input 1", 0),
+    (b"-5 input 1", 0),
+    (b"18446744073709551616 input 1", 0),
+    (b"5", 1),
+    (b"5 ", 2),
+    (b"5\tinput 1", 1),
+    (b"5  input 1", 2),
+    (b"5 Sort bitvec 1", 2),
+    (b"5 sorts bitvec 1", 2),
+    (b"5 inputinputinput 1", 2),
+    (b"5 sort", 6),
+    (b"5 sort bitvex 1", 7),
+    (b"5 sort bitvec", 13),
+    (b"5 sort bitvec 0", 14),
+    (b"5 sort bitvec 18446744073709551616", 14),
+    (b"5 sort bitvec 01", 14),
+    (b"5 sort array 1", 14),
+    (b"5 input 1\r", 9),
+    (b"5 input 1\t", 9),
+    (b"5 input 1 sym junk", 14),
+    (b"5 input 1  ", 10),
+    (b"5 input 1 sym ", 14),
+    (b"5 input", 7),
+    (b"5 add 1 2", 9),
+    (b"5 add 1 2 ", 10),
+    (b"5 add 1 2 x", 10),
+    (b"5 ite 1 2 3", 11),
+    (b"5 uext 1 2 -1", 11),
+    (b"5 uext 1 2", 10),
+    (b"5 slice 1 2 3 00", 14),
+    (b"5 slice 1 2 3 99999999999999999999", 14),
+    (b"5 const 1 2", 10),
+    (b"5 const 1 12", 11),
+    (b"5 constd 1 1-", 12),
+    (b"5 consth 1 g", 11),
+    (b"5 consth 1", 10),
+    (b"5 justice 2 1", 13),
+    (b"5 justice 0 1", 10),
+    (b"5 justice 1 1 s t", 16),
+    (b"5 init 1 2", 10),
+    (b"5 next 1 2 0", 11),
+    (b"5 bad", 5),
+    (b"5 output 1;c", 10),
+];
+
+/// Well-formed lines that are an error only because the input ends without a newline.
+const ERR_EOF_LINES: &[&[u8]] = &[b"5 input 1", b"5 sort bitvec 8", b"5 input 1 sym", b"5 justice 2 3 4", b"5 constd 1 -"];
+
+/// Append a line that is not well-formed (and, usually, more text after it); returns the exact
+/// line and column of the error.
+fn add_error_line(rng: &mut Rng, d: &mut Doc) -> (usize, usize) {
+    let d = d.raw();
+    if rng.chance(1, 8) {
+        let t = *rng.pick(ERR_EOF_LINES);
+        d.lit(t);
+        return d.line_col(d.off());
+    }
+    let &(t, eo) = rng.pick(ERR_LINES);
+    let at = d.off() + eo;
+    d.lit(t);
+    if !(eo == t.len() && rng.chance(1, 3)) {
+        d.lit(b"\n");
+        if rng.chance(1, 2) {
+            d.lit(b"7 input 1\n");
+        }
+    }
+    d.line_col(at)
+}
+
+/// A whitespace run of exactly `n` bytes.
+fn ws_run(rng: &mut Rng, d: &mut Doc, n: usize, shape: u64) {
+    let d = d.raw();
+    let split = |rng: &mut Rng, n: usize| -> usize {
+        // 1..n-1
+        if n < 2 { return n; }
+        match rng.below(5) { 0 => 1, 1 => 2.min(n - 1), 2 => n / 2, 3 => n - 1, _ => rng.range(1, n as u64 - 1) as usize }
+    };
+    match shape {
+        0 => d.rep(n, b"\n"),
+        1 => d.rep(n, b" "),
+        2 => { let a = split(rng, n); d.rep(a, b"\n"); d.rep(n - a, b" "); }
+        3 => { let a = split(rng, n); d.rep(a, b" "); d.rep(n - a, b"\n"); }
+        4 => {
+            let a = split(rng, n - 1);
+            d.rep(a, b" ");
+            d.rep(1, b"\n");
+            d.rep(n - 1 - a, b" ");
+        }
+        5 => {
+            // blank lines of `s` spaces each; the remainder in front or behind
+            let s = *rng.pick(&[1usize, 2, 7, 63]);
+            let mut unit = vec![b' '; s];
+            unit.push(b'\n');
+            let (m, r) = (n / (s + 1), n % (s + 1));
+            if rng.chance(1, 2) { d.rep(r, b" "); d.rep(m, &unit); } else { d.rep(m, &unit); d.rep(r, b" "); }
+        }
+        6 => { d.rep(n / 2, b"\n "); d.rep(n % 2, b"\n"); }
+        7 => { d.rep(n / 2, b" \n"); d.rep(n % 2, b" "); }
+        _ => {
+            // a few runs of alternating kind
+            let parts = rng.range(3, 6) as usize;
+            let mut left = n;
+            let mut sp = rng.chance(1, 2);
+            for p in 0..parts {
+                let take = if p + 1 == parts { left } else { (rng.below(left as u64 + 1) as usize).min(left) };
+                d.rep(take, if sp { b" " } else { b"\n" });
+                left -= take;
+                sp = !sp;
+            }
+        }
+    }
+}
+
+fn sc_ws(rng: &mut Rng, j: usize, hi_k: u32, thorough: bool, dim: &str) -> String {
+    // runs beyond the model's reach cost implementation time only: full range in both tiers, for
+    // half of the cases; the other half stays within the model's reach
+    let cap = ws_cap(thorough);
+    let in_model_k = (usize::BITS - 1 - cap.leading_zeros()).max(11);
+    let n = pool(10, hi_k, if rng.chance(1, 2) { hi_k } else { in_model_k.min(hi_k) }).pick(rng, j);
+    let mut big = n > cap;
+    let mut d = Doc::new();
+    if rng.chance(1, 2) {
+        let k = rng.range(1, 3);
+        d.text(&small_lines(rng, k));
+    }
+    let shape = match dim { "ws_nl" => 0, "ws_mix" => 1 + (j as u64 / 2 + rng.below(2) * 4) % 8, _ => rng.below(9) };
+    ws_run(rng, &mut d, n, shape);
+    if dim != "ws_valid" {
+        let e = add_error_line(rng, &mut d);
+        return d.case(None, false, None, Some(e), big);
+    }
+    if !rng.chance(1, 4) {
+        let q = rng.range(1, 3);
+        for l in small_lines(rng, q) {
+            if rng.chance(1, 4) { d.raw().rep(rng.range(1, 3) as usize, b" "); }
+            d.text(&[l]);
+            if rng.chance(1, 4) { d.raw().rep(rng.range(1, 2) as usize, b"\n"); }
+        }
+        if rng.chance(1, 3) {
+            // a second run, at the end of the input
+            let n2 = if rng.chance(1, 2) { rng.range(1, 4200) as usize } else { pool(10, hi_k, hi_k).generic(rng) };
+            let n2 = if big { n2 } else { n2.min(cap / 2) };
+            big = big || n2 > cap;
+            let shape2 = rng.below(9);
+            ws_run(rng, &mut d, n2, shape2);
+        }
+    }
+    let x = d.expected();
+    d.case(None, false, Some(x), None, big)
+}
+
+const SYM_PATS: &[&[u8]] = &[b"a", b"ab", b"x;", b"0", b"9", b"-", b"\t", b"\r", b"\xff", b"\x00", b"sort", b"\xc3\xa9", b"s_1."];
+const CMT_PATS: &[&[u8]] = &[b" ", b"a", b"; ", b"ab\t", b"\r", b"\xff\x00", b"1 sort bitvec 8 ", b"\xc3\xa9", b";", b"\t "];
+
+fn tail(symbol: &Option<Vec<u8>>, comment: &Option<Vec<u8>>) -> Vec<u8> {
+    let mut t = vec![];
+    if let Some(s) = symbol { t.push(b' '); t.extend_from_slice(s); }
+    if let Some(c) = comment { t.extend_from_slice(b" ;"); t.extend_from_slice(c); }
+    t.push(b'\n');
+    t
+}
+
+fn filled(n: usize, pat: &[u8]) -> Vec<u8> {
+    pat.iter().cycle().take(n).copied().collect()
+}
+
+/// `<id> justice <n> <start> <start+step> …` with optional symbol / comment.
+fn add_justice(rng: &mut Rng, d: &mut Doc, n: usize, decorate: bool) {
+    // the text of the line stays below ~2 MiB (the model costs ~1.3 s per MiB of numerals): beyond
+    // 2^16 conditions they are one-digit ids
+    let (start, step): (u64, u64) = match if n > (1 << 16) + 64 { 1 } else { rng.below(6) } {
+        0 => (1, 1),
+        1 => (rng.range(1, 9), 0),
+        2 => { let step = rng.range(1, 3); (u64::MAX - (n as u64 - 1) * step, step) }
+        3 => { let p = 10u64.pow(rng.range(2, 18) as u32); (p.saturating_sub(n as u64 / 2).max(1), 1) }
+        4 => (rng.range(1, 1 << 40), rng.range(0, 1 << 20)),
+        _ => (rng.range(1, 300), rng.range(1, 9)),
+    };
+    let id = rand_id(rng);
+    let symbol = if decorate && rng.chance(1, 3) { Some(rand_symbol(rng)) } else { None };
+    let comment = if decorate && rng.chance(1, 3) { Some(rand_comment(rng)) } else { None };
+    d.lit(format!("{} justice {}", id, n).as_bytes());
+    d.num(n, start, step, b" ", b"");
+    d.lit(&tail(&symbol, &comment));
+    let ids: Vec<u64> = (0..n as u64).map(|i| start + i * step).collect();
+    d.items.push(XItem::Line(OLine::Node { id, variant: OVariant::Justice(ids), symbol, comment }));
+}
+
+fn sc_just_rt(rng: &mut Rng, j: usize, hi_k: u32) -> String {
+    let n = pool(10, hi_k, gen_k(hi_k).max(18)).pick(rng, j);
+    let mut d = Doc::new();
+    let k = rng.below(3);
+    d.text(&small_lines(rng, k));
+    add_justice(rng, &mut d, n, true);
+    if rng.chance(2, 3) {
+        // a short justice line afterwards: the condition buffer is reused
+        let m = rng.range(1, 4);
+        d.text(&[OLine::Node { id: 9, variant: OVariant::Justice((0..m).map(|i| 20 + i).collect()), symbol: None, comment: None }]);
+        let k = rng.below(3);
+        d.text(&small_lines(rng, k));
+    }
+    d.check_plain();
+    let x = d.expected();
+    d.case(None, false, Some(x), None, false)
+}
+
+fn sc_just_err(rng: &mut Rng, j: usize, hi_k: u32) -> String {
+    let n = pool(10, hi_k, gen_k(hi_k).max(18)).pick(rng, j);
+    let mut d = Doc::new();
+    let k = rng.below(2);
+    d.text(&small_lines(rng, k));
+    let d = d.raw();
+    let (start, step) = if n > (1 << 16) + 64 { (rng.range(1, 9), 0) } else if rng.chance(1, 2) { (1u64, 1u64) } else { (rng.range(1, 1 << 40), rng.range(0, 9)) };
+    let at;
+    match rng.below(6) {
+        0 => {
+            // one condition too few: the line ends where a space is required
+            d.lit(format!("3 justice {}", n).as_bytes());
+            d.num(n - 1, start, step, b" ", b"");
+            at = d.off();
+        }
+        1 => {
+            // two extra numerals: the first is the symbol, the second is neither comment nor end
+            d.lit(format!("3 justice {}", n).as_bytes());
+            d.num(n + 1, start, step, b" ", b"");
+            d.lit(b" ");
+            at = d.off();
+            d.lit(b"77");
+        }
+        2 => {
+            // the count numeral is far larger than the number of conditions that follow
+            d.lit(format!("3 justice {}", *rng.pick(&[u64::MAX, u64::MAX - 1, 1 << 63, n as u64 + 1, 2 * n as u64])).as_bytes());
+            d.num(n, start, step, b" ", b"");
+            at = d.off();
+        }
+        3 => {
+            // a doubled space in front of condition `m`
+            let m = *rng.pick(&[0, n / 2, n - 1]);
+            d.lit(format!("3 justice {}", n).as_bytes());
+            d.num(m, start, step, b" ", b"");
+            d.lit(b" ");
+            at = d.off();
+            d.num(n - m, start, step, b" ", b"");
+        }
+        _ => {
+            // condition `m` is not a node id
+            let m = *rng.pick(&[0, n / 2, n - 1, n - 1]);
+            d.lit(format!("3 justice {}", n).as_bytes());
+            d.num(m, start, step, b" ", b"");
+            d.lit(b" ");
+            at = d.off();
+            d.lit(*rng.pick(&[&b"0"[..], b"x", b"18446744073709551616", b"-1", b"00", b";"]));
+            d.num(n - m - 1, start, step, b" ", b"");
+        }
+    }
+    d.lit(b"\n8 input 1\n");
+    let e = d.line_col(at);
+    d.case(None, false, None, Some(e), false)
+}
+
+/// A node line with a symbol of `n` bytes.
+fn add_long_symbol(rng: &mut Rng, d: &mut Doc, n: usize) {
+    let pat = *rng.pick(SYM_PATS);
+    let comment = if rng.chance(1, 3) { Some(rand_comment(rng)) } else { None };
+    let id = rand_id(rng);
+    let variant = loop {
+        let v = rand_variant(rng);
+        if !matches!(v, OVariant::Justice(_)) { break v; }
+    };
+    let head = OLine::Node { id, variant: variant.clone(), symbol: None, comment: None };
+    let t = write_lines(&[head]).unwrap();
+    d.lit(&t[..t.len() - 1]);
+    d.lit(b" ");
+    d.fill(n, pat);
+    d.lit(&tail(&None, &comment));
+    d.items.push(XItem::Line(OLine::Node { id, variant, symbol: Some(filled(n, pat)), comment }));
+}
+
+/// A comment line (`whole`) or a node line with a trailing comment, of `n` comment bytes;
+/// `newline = false` leaves the input unterminated (legal after a comment).
+fn add_long_comment(rng: &mut Rng, d: &mut Doc, n: usize, whole: bool, newline: bool) {
+    let pat = *rng.pick(CMT_PATS);
+    if whole {
+        d.lit(b";");
+        d.fill(n, pat);
+        d.items.push(XItem::Line(OLine::Comment(filled(n, pat))));
+    } else {
+        let symbol = if rng.chance(1, 3) { Some(rand_symbol(rng)) } else { None };
+        let id = rand_id(rng);
+        let variant = rand_variant(rng);
+        let head = OLine::Node { id, variant: variant.clone(), symbol: symbol.clone(), comment: None };
+        let t = write_lines(&[head]).unwrap();
+        d.lit(&t[..t.len() - 1]);
+        d.lit(b" ;");
+        d.fill(n, pat);
+        d.items.push(XItem::Line(OLine::Node { id, variant, symbol, comment: Some(filled(n, pat)) }));
+    }
+    if newline { d.lit(b"\n"); } else { d.plain = false; }
+}
+
+/// A constant of `n` digits.
+fn add_long_const(rng: &mut Rng, d: &mut Doc, n: usize) {
+    let (kw, lead, pat, mk): (&str, &[u8], &[u8], fn(String) -> OConst) = match rng.below(7) {
+        0 | 1 => ("const", b"", *rng.pick(&[&b"0"[..], b"1", b"01", b"10", b"0011"]), OConst::Binary),
+        2 | 3 => ("consth", b"", *rng.pick(&[&b"f"[..], b"F", b"0", b"09afAF", b"a"]), OConst::Hex),
+        4 => ("constd", b"", *rng.pick(&[&b"9"[..], b"0", b"1234567890", b"5"]), OConst::Decimal),
+        _ => ("constd", b"-", *rng.pick(&[&b"9"[..], b"0", b"1234567890"]), OConst::Decimal),
+    };
+    let id = rand_id(rng);
+    let sort = rand_id(rng);
+    let symbol = if rng.chance(1, 3) { Some(rand_symbol(rng)) } else { None };
+    let comment = if rng.chance(1, 3) { Some(rand_comment(rng)) } else { None };
+    d.lit(format!("{} {} {} ", id, kw, sort).as_bytes());
+    d.lit(lead);
+    d.fill(n - lead.len(), pat);
+    d.lit(&tail(&symbol, &comment));
+    let mut digits = lead.to_vec();
+    digits.extend(filled(n - lead.len(), pat));
+    d.items.push(XItem::Line(OLine::Node {
+        id,
+        variant: OVariant::Const(sort, mk(String::from_utf8(digits).unwrap())),
+        symbol,
+        comment,
+    }));
+}
+
+/// One long thing, valid, with small lines around it; then either the end or an error whose
+/// stream position lies beyond all of it.
+fn sc_long(rng: &mut Rng, j: usize, hi_k: u32, dim: &str) -> String {
+    let n = pool(10, hi_k, gen_k(hi_k)).pick(rng, j);
+    let mut d = Doc::new();
+    let k = rng.below(3);
+    d.text(&small_lines(rng, k));
+    let invalid = j % 3 == 2;
+    match dim {
+        "sym" => {
+            add_long_symbol(rng, &mut d, n);
+            if invalid && rng.chance(1, 2) {
+                // damage directly behind the long symbol: replace its newline
+                let at = d.off() - 1;
+                let has_comment = matches!(d.items.last(), Some(XItem::Line(OLine::Node { comment: Some(_), .. })));
+                if !has_comment {
+                    let d = d.raw();
+                    d.bytes.pop();
+                    let last = d.segs.last_mut().unwrap();
+                    assert!(last.ends_with("0a"));
+                    last.truncate(last.len() - 2);
+                    if last.is_empty() { d.segs.pop(); }
+                    let (junk, eo): (&[u8], usize) = *rng.pick(&[(&b" junk\n"[..], 1), (b"  ;c\n", 1), (b" \n", 1), (b"", 0)]);
+                    d.lit(junk);
+                    let e = d.line_col(at + eo);
+                    return d.case(None, false, None, Some(e), false);
+                }
+            }
+        }
+        "cmt" => {
+            let whole = rng.chance(1, 2);
+            if !invalid && rng.chance(1, 4) {
+                // the comment ends the input without a newline
+                add_long_comment(rng, &mut d, n, whole, false);
+                let x = d.expected();
+                return d.case(None, false, Some(x), None, false);
+            }
+            if rng.chance(1, 3) {
+                // several long comments in a row
+                let parts = rng.range(2, 4) as usize;
+                for _ in 0..parts {
+                    let w = rng.chance(1, 2);
+                    add_long_comment(rng, &mut d, n / parts, w, true);
+                }
+            } else {
+                add_long_comment(rng, &mut d, n, whole, true);
+            }
+        }
+        _ => {
+            add_long_const(rng, &mut d, n);
+            if invalid && rng.chance(1, 2) {
+                // a byte that is no digit of this constant kind, `m` digits into a long constant
+                let mut d = Doc::new();
+                let (kw, pat, bad): (&str, &[u8], &[u8]) = *rng.pick(&[
+                    ("const", &b"01"[..], &b"2"[..]), ("const", b"1", b"a"), ("constd", b"9", b"a"), ("constd", b"12", b"-"),
+                    ("consth", b"fA0", b"g"), ("consth", b"0", b"x"), ("const", b"0", b"\r"), ("consth", b"a", b"-"),
+                ]);
+                let m = *rng.pick(&[n - 1, n - 1, n / 2, 1]);
+                let d2 = d.raw();
+                d2.lit(format!("4 {} 1 ", kw).as_bytes());
+                d2.fill(m, pat);
+                let at = d2.off();
+                d2.lit(bad);
+                d2.fill(n - m - 1, pat);
+                d2.lit(b"\n5 input 1\n");
+                let e = d2.line_col(at);
+                return d2.case(None, false, None, Some(e), false);
+            }
+        }
+    }
+    let k = rng.below(3);
+    d.text(&small_lines(rng, k));
+    if invalid {
+        let e = add_error_line(rng, &mut d);
+        return d.case(None, false, None, Some(e), false);
+    }
+    d.check_plain();
+    let x = d.expected();
+    d.case(None, false, Some(x), None, false)
+}
+
+/// Numerals: a digit run of scale size in every numeric position (an error at its first digit),
+/// and values at the limits of the integer types.
+fn sc_num(rng: &mut Rng, j: usize, hi_k: u32) -> String {
+    const POS: &[(&str, &str)] = &[
+        ("", " input 1"), ("5 input ", ""), ("5 sort bitvec ", ""), ("5 sort array 1 ", ""), ("5 uext 1 2 ", ""),
+        ("5 slice 1 2 3 ", ""), ("5 slice 1 2 ", " 3"), ("5 justice ", " 1"), ("5 justice 2 1 ", ""), ("5 add 1 2 ", " s ;c"),
+        ("5 next 1 2 ", ""),
+    ];
+    let mut d = Doc::new();
+    let k = rng.below(3);
+    d.text(&small_lines(rng, k));
+    if j % 3 == 2 {
+        // values at the limits, valid
+        const LIM: &[u64] = &[u64::MAX, u64::MAX - 1, 1 << 63, (1 << 63) - 1, (1 << 63) + 1, 1 << 32, (1 << 32) - 1, (1 << 32) + 1, 10_000_000_000_000_000_000, 9_999_999_999_999_999_999, 1 << 53, u32::MAX as u64, i64::MAX as u64];
+        let v = |rng: &mut Rng| *rng.pick(LIM);
+        let ls = vec![
+            OLine::Node { id: v(rng), variant: OVariant::SortBitVec(v(rng)), symbol: None, comment: None },
+            OLine::Node { id: v(rng), variant: OVariant::SortArray(v(rng), v(rng)), symbol: None, comment: None },
+            OLine::Node { id: v(rng), variant: OVariant::Unary(v(rng), UnaryOp::Slice(v(rng), v(rng)), v(rng)), symbol: None, comment: None },
+            OLine::Node { id: v(rng), variant: OVariant::Unary(v(rng), UnaryOp::Uext(v(rng)), v(rng)), symbol: None, comment: None },
+            OLine::Node { id: v(rng), variant: OVariant::Ternary(v(rng), TernaryOp::Ite, [v(rng), v(rng), v(rng)]), symbol: None, comment: None },
+            OLine::Node { id: v(rng), variant: OVariant::Justice(vec![v(rng), v(rng)]), symbol: None, comment: None },
+            OLine::Node { id: v(rng), variant: OVariant::Assignment { state: v(rng), sort: v(rng), kind: AssignmentKind::Next, value: v(rng) }, symbol: None, comment: None },
+        ];
+        d.text(&ls);
+        if rng.chance(1, 2) {
+            // one above a limit of the 64-bit type, in one position
+            let &(pre, suf) = rng.pick(POS);
+            let d = d.raw();
+            d.lit(pre.as_bytes());
+            let at = d.off();
+            d.lit(*rng.pick(&[&b"18446744073709551616"[..], b"18446744073709551617", b"18446744073709551625", b"99999999999999999999", b"36893488147419103232", b"100000000000000000000"]));
+            d.lit(suf.as_bytes());
+            d.lit(b"\n6 input 1\n");
+            let e = d.line_col(at);
+            return d.case(None, false, None, Some(e), false);
+        }
+        d.check_plain();
+        let x = d.expected();
+        return d.case(None, false, Some(x), None, false);
+    }
+    let n = pool(10, hi_k, gen_k(hi_k)).pick(rng, j);
+    let &(pre, suf) = rng.pick(POS);
+    let d = d.raw();
+    d.lit(pre.as_bytes());
+    let at = d.off();
+    match rng.below(6) {
+        0 => d.rep(n, b"9"),
+        1 => { d.lit(b"1"); d.rep(n - 1, b"0"); }
+        2 => d.rep(n, b"0"),
+        3 => { d.rep(n - 20, b"0"); d.lit(b"18446744073709551615"); }
+        4 => d.fill(n, b"1234567890"),
+        _ => { d.rep(n - 1, b"0"); d.lit(b"1"); }
+    }
+    d.lit(suf.as_bytes());
+    d.lit(b"\n6 input 1\n");
+    let e = d.line_col(at);
+    d.case(None, false, None, Some(e), false)
+}
+
+/// `n` lines, as counted lines or repeated blocks.
+fn add_many_lines(rng: &mut Rng, d: &mut Doc, n: usize) {
+    if n > 1 << 16 {
+        // short lines, so that 2^20 lines stay within a few MiB
+        let block: Vec<OLine> = match rng.below(3) {
+            0 => vec![OLine::Comment(vec![])],
+            1 => vec![OLine::Comment(vec![]), OLine::Node { id: 2, variant: OVariant::Const(1, OConst::One), symbol: None, comment: None }],
+            _ => vec![OLine::Node { id: 3, variant: OVariant::Output(SingleValueOutputKind::Bad, 2), symbol: None, comment: None }, OLine::Comment(b";".to_vec())],
+        };
+        let count = n / block.len();
+        let k = (n - count * block.len()) as u64;
+        d.repeat(count, block);
+        d.text(&small_lines(rng, k));
+    } else if rng.chance(1, 3) {
+        let k = rng.range(2, 6);
+        let block = small_lines(rng, k);
+        let count = (n / block.len()).max(1);
+        d.repeat(count, block);
+        let k = (n - (count * k as usize).min(n)) as u64;
+        d.text(&small_lines(rng, k));
+    } else {
+        let step = *rng.pick(&[1u64, 1, 1, 0, 3, 1 << 32]);
+        let start = match rng.below(4) {
+            0 => 1,
+            1 => rng.range(1, 1 << 40),
+            2 => u64::MAX - step * (n as u64 - 1) - rng.below(2),
+            _ => 2,
+        };
+        d.counted(Counted { count: n, start, step, kind: rng.below(COUNTED_KINDS as u64) as usize });
+    }
+}
+
+fn sc_lines(rng: &mut Rng, j: usize, hi_k: u32, thorough: bool) -> String {
+    let n = pool(10, hi_k, gen_k(hi_k)).pick(rng, j);
+    let cap = lines_cap(thorough);
+    let big = n > cap;
+    let mut d = Doc::new();
+    let k = rng.below(2);
+    d.text(&small_lines(rng, k));
+    add_many_lines(rng, &mut d, n);
+    match j % 3 {
+        2 => {
+            // the error is on a line whose number is of scale size
+            let e = add_error_line(rng, &mut d);
+            d.case(None, false, None, Some(e), big)
+        }
+        _ => {
+            if rng.chance(1, 4) {
+                let (m, w) = (rng.range(0, 9) as usize, rng.chance(1, 2));
+                add_long_comment(rng, &mut d, m, w, false);
+            }
+            d.check_plain();
+            let x = d.expected();
+            d.case(None, false, Some(x), None, big)
+        }
+    }
+}
+
+/// At least `n` bytes of valid text; returns whether the document is beyond the model's reach.
+fn add_bulk(rng: &mut Rng, d: &mut Doc, n: usize, kind: u64, thorough: bool) -> bool {
+    match kind {
+        0 => { add_long_comment(rng, d, n, true, true); false }
+        1 => { add_long_comment(rng, d, n, false, true); false }
+        2 => { add_long_symbol(rng, d, n); false }
+        3 => { add_long_const(rng, d, n); false }
+        4 => {
+            // ~8 bytes per condition, 2 where `add_justice` falls back to one-digit ids
+            let count = if n / 8 > (1 << 16) + 64 { n / 2 } else { (n / 8).max(1) };
+            add_justice(rng, d, count, true);
+            false
+        }
+        5 => {
+            // some tens of long lines with blank lines between them
+            let parts = rng.range(8, 40) as usize;
+            for _ in 0..parts {
+                match rng.below(4) {
+                    0 => add_long_comment(rng, d, n / parts, true, true),
+                    1 => add_long_comment(rng, d, n / parts, false, true),
+                    2 => add_long_symbol(rng, d, n / parts),
+                    _ => add_long_const(rng, d, (n / parts).max(1)),
+                }
+                if rng.chance(1, 3) { d.raw().rep(rng.range(1, 3) as usize, b"\n"); }
+            }
+            false
+        }
+        6 => {
+            let lines = (n / 10).max(1);
+            add_many_lines(rng, d, lines);
+            lines > lines_cap(thorough)
+        }
+        _ => {
+            let shape = rng.below(9);
+            ws_run(rng, d, n, shape);
+            d.text(&small_lines(rng, 1));
+            n > ws_cap(thorough)
+        }
+    }
+}
+
+fn sc_fault(rng: &mut Rng, j: usize, hi_k: u32, thorough: bool) -> String {
+    let n = pool(16, hi_k, if hi_k > 20 { hi_k } else { 18 }).pick(rng, j);
+    let mut d = Doc::new();
+    let k = rng.below(3);
+    d.text(&small_lines(rng, k));
+    let kind = (j as u64 + rng.below(2) * 4) % 8;
+    let big = add_bulk(rng, &mut d, n, kind, thorough);
+    let end_of_bulk = d.off();
+    let k = rng.range(1, 3);
+    d.text(&small_lines(rng, k));
+    let len = d.off();
+    let k = match rng.below(8) {
+        0 => n - 1,
+        1 => n,
+        2 => n + 1,
+        3 => end_of_bulk - 1,
+        4 => end_of_bulk,
+        5 => len,
+        6 => len - 1,
+        _ => rng.range((n as u64 / 2).min(len as u64), len as u64) as usize,
+    }
+    .min(len);
+    d.case(Some(k), false, None, None, big)
+}
+
+fn sc_ls(rng: &mut Rng, j: usize, hi_k: u32, thorough: bool) -> String {
+    let n = pool(16, hi_k, if hi_k > 20 { hi_k } else { 18 }).pick(rng, j);
+    let mut d = Doc::new();
+    let k = rng.below(3);
+    d.text(&small_lines(rng, k));
+    let kind = *rng.pick(&[5u64, 5, 5, 0, 1, 2, 3, 4, 6, 7]);
+    let big = add_bulk(rng, &mut d, n, kind, thorough);
+    let k = rng.below(3);
+    d.text(&small_lines(rng, k));
+    let e = if j % 3 == 2 { Some(add_error_line(rng, &mut d)) } else { None };
+    d.case(None, true, None, e, big)
+}
+
+/// The constant validators on strings of scale length.
+fn sc_valid(rng: &mut Rng, j: usize, hi_k: u32) -> String {
+    let n = pool(10, hi_k, gen_k(hi_k)).pick(rng, j);
+    let (t, pat): (char, &[u8]) = *rng.pick(&[('b', &b"01"[..]), ('b', b"1"), ('d', b"9"), ('d', b"1234567890"), ('h', b"0"), ('h', b"09afAF"), ('h', b"f")]);
+    let mut d = Doc::new();
+    let m = match rng.below(6) { 0 => Some(0), 1 => Some(n - 1), 2 => Some(n / 2), _ => None };
+    match m {
+        Some(m) => {
+            // one byte that may or may not be a digit of this kind
+            d.fill(m, pat);
+            d.lit(*rng.pick(&[&b"-"[..], b"2", b"a", b"g", b"G", b" ", b"\n", b"0", b"\xc3\xa9"]));
+            d.fill(n - m - 1, pat);
+        }
+        None => {
+            if t == 'd' && rng.chance(1, 2) { d.lit(b"-"); d.fill(n - 1, pat); } else { d.fill(n, pat); }
+        }
+    }
+    format!("btor2 k=- ls=0 d=- v={}:{}", t, d.field())
+}
+
+pub fn gen_scale(rng: &mut Rng, thorough: bool, only: &str) -> String {
+    let i = SCALE_IDX.fetch_add(1, Ordering::Relaxed);
+    let cycle: Vec<&str> = DIMS.iter().copied().filter(|d| only.is_empty() || only.split('+').any(|o| o == *d)).collect();
+    assert!(!cycle.is_empty(), "no scale dimension named in {:?} (known: {:?})", only, DIMS);
+    let dim = cycle[i % cycle.len()];
+    let slot = DIMS.iter().position(|d| *d == dim).unwrap();
+    let j = DIM_COUNT[slot].fetch_add(1, Ordering::Relaxed);
+    let hi_k = if thorough { 21 } else { 20 };
+    match dim {
+        "ws_nl" | "ws_mix" | "ws_valid" => sc_ws(rng, j, hi_k, thorough, dim),
+        "just_rt" => sc_just_rt(rng, j, hi_k),
+        "just_err" => sc_just_err(rng, j, hi_k),
+        "sym" | "cmt" | "const" => sc_long(rng, j, hi_k, dim),
+        "num" => sc_num(rng, j, hi_k),
+        "lines" => sc_lines(rng, j, hi_k, thorough),
+        "fault" => sc_fault(rng, j, hi_k, thorough),
+        "ls" => sc_ls(rng, j, hi_k, thorough),
+        _ => sc_valid(rng, j, hi_k),
+    }
 }
